@@ -150,7 +150,7 @@ def run_c20(tier):
         for fs in ("", "sync"):
             binp = common.build_harness(fs)
             part = trace + "." + (fs or "default")
-            p = common.run_harness(binp, ["threads-record", sched, part, "--stress", "20" if tier == "quick" else "400"], timeout=7200)
+            p = common.run_harness(binp, ["threads-record", sched, part, "--stress", "60" if tier == "quick" else "400"], timeout=7200)
             log(p.stdout.strip().splitlines()[-1])
             tf.write(open(part).read())
             os.remove(part)
